@@ -304,21 +304,21 @@ class BoostMatrix(sp.Expr):
             [g, -g * beta_x, -g * beta_y, -g * beta_z],
             [
                 -g * beta_x,
-                1 + (g - 1) * beta_x**2 / beta_sq,
-                (g - 1) * beta_y * beta_x / beta_sq,
-                (g - 1) * beta_z * beta_x / beta_sq,
+                1 + g**2 / (g + 1) * beta_x**2,
+                g**2 / (g + 1) * beta_y * beta_x,
+                g**2 / (g + 1) * beta_z * beta_x,
             ],
             [
                 -g * beta_y,
-                (g - 1) * beta_x * beta_y / beta_sq,
-                1 + (g - 1) * beta_y**2 / beta_sq,
-                (g - 1) * beta_z * beta_y / beta_sq,
+                g**2 / (g + 1) * beta_x * beta_y,
+                1 + g**2 / (g + 1) * beta_y**2,
+                g**2 / (g + 1) * beta_z * beta_y,
             ],
             [
                 -g * beta_z,
-                (g - 1) * beta_x * beta_z / beta_sq,
-                (g - 1) * beta_y * beta_z / beta_sq,
-                1 + (g - 1) * beta_z**2 / beta_sq,
+                g**2 / (g + 1) * beta_x * beta_z,
+                g**2 / (g + 1) * beta_y * beta_z,
+                1 + g**2 / (g + 1) * beta_z**2,
             ],
         ])
 
@@ -336,12 +336,12 @@ class BoostMatrix(sp.Expr):
             b01=-gamma * beta_x,
             b02=-gamma * beta_y,
             b03=-gamma * beta_z,
-            b11=1 + (gamma - 1) * beta_x**2 / beta_sq,
-            b12=(gamma - 1) * beta_x * beta_y / beta_sq,
-            b13=(gamma - 1) * beta_x * beta_z / beta_sq,
-            b22=1 + (gamma - 1) * beta_y**2 / beta_sq,
-            b23=(gamma - 1) * beta_y * beta_z / beta_sq,
-            b33=1 + (gamma - 1) * beta_z**2 / beta_sq,
+            b11=1 + gamma**2 / (gamma + 1) * beta_x**2,
+            b12=gamma**2 / (gamma + 1) * beta_x * beta_y,
+            b13=gamma**2 / (gamma + 1) * beta_x * beta_z,
+            b22=1 + gamma**2 / (gamma + 1) * beta_y**2,
+            b23=gamma**2 / (gamma + 1) * beta_y * beta_z,
+            b33=1 + gamma**2 / (gamma + 1) * beta_z**2,
         )
 
 
